@@ -124,6 +124,17 @@ class Ctx:
             return lambda *a: mk_bool(f(*[T(x) for x in a]))
         return lambda *a: SymInt(f(*[T(x) for x in a]))
 
+    def recorder(self, name, handler=None, **attrs):
+        """stand-in for a library object: records every method call (name, args, kwargs); `handler` gives
+        the (assumed) result"""
+        d = dict(attrs)
+        d["__calls__"] = []
+        d["__handler__"] = handler
+        return Obj(None, d, kind="recorder:" + name)
+
+    def calls(self, rec):
+        return rec.attrs["__calls__"]
+
     def bytes_of(self, items):
         return BList(list(items))
 
